@@ -16,7 +16,7 @@ for d in seeded/${1:-}*/; do
     f=$(grep '^VIOLATION' /tmp/hw.txt | grep -v no-failing | head -1 | sed 's/.*replay=\([^ ]*\).*/\1/')
     if [ -n "$f" ] && [ -f "$f" ]; then got=$f; break; fi
   done
-  git -C /repo checkout -- .; git -C /verif checkout -- lean/Usid/Generated
+  git -C /repo checkout -- .; git -C /verif checkout -- lean/Usid/Generated evidence
   if [ -z "$got" ]; then echo "$id NO-WITNESS"; continue; fi
   /venv/bin/python - "$got" "$P" "$id" <<'PY'
 import json, sys, os
